@@ -19,7 +19,7 @@ ASSUMPTIONS = ["faults are injected through the pattern / event dict / recording
 PROF = sched_gen.profile(
     n_streams=(2, 5), p_fault_item=0.05, p_bad_voice=0.05, p_action=0.08, p_action_exc=0.35, p_action_stop=0.25,
     p_control=0.1, p_program=0.06, p_chord=0.3, tolerant=0.6, steps=(4, 12), tick_run=(1, 40), initial_sched=(2, 5),
-    p_voice_chan=0.0, op_weights=dict(sched=2, upd=0.8, unsched=0.3, clear=0.1, mute=0.3, unmute=0.3))
+    p_voice_chan=0.0, op_weights=dict(sched=2, upd=0.8, unsched=0.3, clear=0.1, mute=0.3, unmute=0.3, named=1.0))
 
 
 def nontrivial(lines, impl, feat):
